@@ -52,6 +52,7 @@ pub fn cli_truncate(ctx: &mut Ctx) {
         ctx.case_free();
     }
     let n = if ctx.thorough { 60 } else { 8 };
+    let mut append_hung = false;
     for case in 0..n {
         let sbx = Sbx::new("ctrunc", case);
         std::fs::create_dir_all(sbx.path("t")).unwrap();
@@ -127,6 +128,8 @@ pub fn cli_truncate(ctx: &mut Ctx) {
             let desc = json!({"case":case,"solid":solid,"parts":parts.len(),"complete_parts_kept":keep,"next_part": match next { None => "absent".to_string(), Some(c) => format!("cut at {c} of {}", parts[keep].1.len()) }});
             ctx.count(match next { None => "prefix:next-part-absent", Some(0) => "prefix:next-part-empty", Some(_) => "prefix:cut-inside-a-part" });
             for cmd in 0..4 {
+                // one hang of `append` is the finding; do not wait for it again on every further prefix
+                if cmd == 3 && append_hung { continue; }
                 let _ = std::fs::remove_dir_all(sbx.path("o"));
                 let args: Vec<&str> = match cmd {
                     0 => vec!["list", first.as_str()],
@@ -139,6 +142,7 @@ pub fn cli_truncate(ctx: &mut Ctx) {
                 ctx.oracle_eval();
                 let attrs = json!({"prefix":desc,"argv":args,"run":r.brief()});
                 if r.crashed() || r.hung() {
+                    if cmd == 3 && r.hung() { append_hung = true; }
                     ctx.violation("C06", "a command crashed or hung on a proper prefix of an archive", attrs.clone());
                     ctx.violation("C07", "a command crashed or hung on a truncated archive", attrs);
                     continue;
